@@ -3,7 +3,6 @@
 pub mod constant { pub struct DurationC { pub ms: u128 } impl DurationC { pub fn as_millis(&self) -> (r: u128) ensures r == self.ms { self.ms } } pub const REFRESH_PEERS_DURATION: DurationC = DurationC { ms: 8000 }; }
 #[verifier::external_body]
 pub fn unix_time_as_millis_local() -> (r: u64) ensures r >= 1_000_000, is_now(r) { unimplemented!() }
-pub uninterp spec fn is_now(t: u64) -> bool;          // t is a reading of the local clock taken in this call
 impl Peers {
     #[verifier::external_body]
     // GATE (C11 "an unanswered request or an unchanged last state leads to disconnection after the message timeout"): the timeouts
